@@ -38,9 +38,10 @@ RegularRefresh == 100000     \* check_regular_refresh: last_regular_refresh_inde
 VARIABLES inputs, n, rxNow, ecuLcs, bufMsgs, bufLcs, nextCheck, published, pendingEmpty, toRefresh, nextId,
           delivered, done, panic,
           nextIdx,       \* index field the next message would carry with increment 1
-          lastRegular    \* last_regular_refresh_index
+          lastRegular,   \* last_regular_refresh_index
+          paths          \* ghost: which code paths this behaviour took (coverage evidence; not part of the VIEW)
 vars == <<inputs, n, rxNow, ecuLcs, bufMsgs, bufLcs, nextCheck, published, pendingEmpty, toRefresh, nextId,
-          delivered, done, panic, nextIdx, lastRegular>>
+          delivered, done, panic, nextIdx, lastRegular, paths>>
 
 NoRes == [id |-> 0, maxTs |-> 0, start |-> 0]
 Max(a, b) == IF a > b THEN a ELSE b
@@ -142,7 +143,23 @@ Perms(S) == {p \in [1..Cardinality(S) -> S] : \A i, j \in 1..Cardinality(S) : i 
 Init ==
   /\ inputs = <<>> /\ n = 0 /\ rxNow = RxBase /\ ecuLcs = [e \in Ecus |-> <<>>] /\ bufMsgs = <<>> /\ bufLcs = {}
   /\ nextCheck = 0 /\ published = <<>> /\ pendingEmpty = {} /\ toRefresh = {} /\ nextId = 1 /\ delivered = <<>>
-  /\ done = FALSE /\ panic = FALSE /\ nextIdx = 0 /\ lastRegular = 0
+  /\ done = FALSE /\ panic = FALSE /\ nextIdx = 0 /\ lastRegular = 0 /\ paths = {}
+
+\* which branch of Lifecycle::update a (non control request) message takes on lifecycle lc
+UpdateTag(lc, m) ==
+  LET ts == MsgTs(m)
+      msgStart == IF m.rx >= ts THEN m.rx - ts ELSE 0
+      partOf == (~SlightlyOv(lc, msgStart) /\ msgStart <= EndTime(lc)) \/ m.kind = "nots"
+      wouldMove == IF msgStart < lc.start THEN lc.start - msgStart ELSE 0
+      isResume == /\ m.rx >= lc.lastRx + ResumeGap /\ ts >= lc.maxTs /\ msgStart >= lc.start + ResumeGap
+                  /\ (m.rx - lc.lastRx) + ResumeBuf > msgStart - lc.start
+  IN IF m.kind = "ctrl" THEN "upd-ctrl-request"
+     ELSE IF partOf /\ wouldMove > BufDelay /\ lc.maxTs > 0 THEN "upd-ignore-timestamp"
+     ELSE IF ~isResume /\ partOf
+          THEN (IF lc.res.id # 0 /\ lc.maxTs >= ts /\ ts < lc.res.maxTs - (lc.res.maxTs \div 8) THEN "upd-absorb-unresume"
+                ELSE IF SlightlyOv(lc, msgStart) THEN "upd-absorb-no-timestamp" ELSE "upd-absorb")
+     ELSE IF isResume THEN "upd-new-resume"
+     ELSE IF SlightlyOv(lc, msgStart) THEN "upd-new-slightly-overlapping" ELSE "upd-new"
 
 Step(m, order) ==
   LET L == ecuLcs[m.ecu]
@@ -185,7 +202,7 @@ Step(m, order) ==
   IN
   IF p1.pan THEN /\ panic' = TRUE /\ done' = TRUE /\ inputs' = Append(inputs, m)
                  /\ UNCHANGED <<ecuLcs, bufMsgs, bufLcs, nextCheck, published, pendingEmpty, toRefresh, nextId, delivered, lastRegular>>
-                 /\ n' = n + 1 /\ rxNow' = m.rx /\ nextIdx' = m.ix + 1
+                 /\ n' = n + 1 /\ rxNow' = m.rx /\ nextIdx' = m.ix + 1 /\ paths' = paths \cup {"internal-assert"}
   ELSE
   /\ inputs' = Append(inputs, m)
   /\ n' = n + 1 /\ rxNow' = m.rx
@@ -194,6 +211,21 @@ Step(m, order) ==
   /\ nextCheck' = (IF doCheck THEN m.rx + CheckPeriod ELSE nextCheck)
   /\ bufLcs' = p3.bl
   /\ nextIdx' = m.ix + 1
+  /\ paths' = paths \cup
+       {IF len = 0 THEN "first-lifecycle-of-ecu" ELSE UpdateTag(L[len], m)}
+       \cup (IF p1.removed /\ L[len - 1].id \in bufLcs /\ L[len].id \in bufLcs THEN {"merge-into-buffered-prev"} ELSE {})
+       \cup (IF p1.removed /\ L[len - 1].id \in bufLcs /\ L[len].id \notin bufLcs THEN {"merge-confirmed-into-buffered-prev"} ELSE {})
+       \cup (IF p1.removed /\ L[len - 1].id \notin bufLcs /\ L[len].id \in bufLcs THEN {"merge-into-confirmed-prev"} ELSE {})
+       \cup (IF p1.removed /\ L[len - 1].id \notin bufLcs /\ L[len].id \notin bufLcs THEN {"merge-confirmed-into-confirmed-prev"} ELSE {})
+       \cup (IF ~p1.removed /\ len > 1 /\ Len(p1.L) = len /\ p1.L[len].start <= EndTime(L[len - 1]) /\ p1.L[len].res.id = 0
+                /\ ~SlightlyOv(L[len - 1], p1.L[len].start) THEN {"merge-skipped-not-all-queued"} ELSE {})
+       \cup (IF p1.removed /\ p1.bl = {} /\ p1.q # <<>> THEN {"flush-after-merge-send4"} ELSE {})
+       \cup (IF p3.bl # p1.bl THEN {"confirmed"} ELSE {})
+       \cup (IF Len(p3.out) > Len(p2.out) THEN {"release-after-confirm-send1"} ELSE {})
+       \cup (IF p3.mark # p2.mark THEN {"release-other-lifecycle-send2"} ELSE {})
+       \cup (IF p3.bl # {} THEN {"enqueue"} ELSE {"forward-direct-send3"})
+       \cup (IF p3.bl = {} /\ lastRegular + RegularRefresh < m.ix THEN {"regular-refresh"} ELSE {})
+       \cup (IF m.kind = "nots" THEN {"no-timestamp-message"} ELSE {})
   \* phase 4: enqueue while anything is buffered, else forward directly ("send 3"); only the direct path marks the lifecycle and
   \* runs the regular refresh (publish every marked lifecycle that is still in the per-ECU lists, refresh, clear the marks)
   /\ IF p3.bl # {}
@@ -225,6 +257,7 @@ Finish ==
          pub2 == [i \in DOMAIN pub1 |-> IF i \in f.mark /\ (\E lc \in AllLcs : lc.id = i) THEN Snap(LcById(i)) ELSE pub1[i]]
      IN /\ delivered' = f.out /\ published' = pub2 /\ toRefresh' = {}
   /\ bufMsgs' = <<>> /\ bufLcs' = {} /\ pendingEmpty' = {} /\ done' = TRUE
+  /\ paths' = paths \cup (IF bufLcs # {} THEN {"final-publish"} ELSE {}) \cup (IF bufMsgs # <<>> THEN {"final-flush"} ELSE {})
   /\ UNCHANGED <<inputs, n, rxNow, ecuLcs, nextCheck, nextId, panic, nextIdx, lastRegular>>
 
 Msgs == {m \in [ecu : Ecus, rx : {rxNow + d : d \in RxDeltas}, ts : TsVals, kind : Kinds, ix : {nextIdx + d - 1 : d \in IdxDeltas}] :
@@ -265,5 +298,5 @@ View == <<n, [e \in Ecus |-> [i \in 1..Len(ecuLcs[e]) |-> RelLc(ecuLcs[e][i])]],
 PubList == {[id |-> i, ecu |-> published[i].ecu, nr |-> published[i].nr, start |-> published[i].start,
              end |-> published[i].end, res |-> published[i].res] : i \in DOMAIN published}
 EmitInv == done => PrintT(<<"SCN", ToJson([inputs |-> inputs, delivered |-> delivered, pub |-> PubList, panic |-> panic,
-                                           c05 |-> C05, c06 |-> C06, c07 |-> C07])>>)
+                                           c05 |-> C05, c06 |-> C06, c07 |-> C07, paths |-> paths])>>)
 =============================================================================
